@@ -165,6 +165,58 @@ def mantLoopL : Nat → Arr → Nat → Int → Option (Arr × Int)
       | none => none
       | some A' => mantLoopL fuel A' units (e - 1)
 
+/-- "Determine which decimal digit positions may be needed": `units_digit = msp_max / DDIG_PER_DIG` -/
+def unitsOf (msp rsMin rsMax : Int) : Nat :=
+  (if rsMax > 0 then msp else if rsMin < 0 then msp + (2 - rsMin) / 3 else msp).toNat / DDIG_PER_DIG
+
+/-- index of the limb that receives the first decimal digit -/
+def startOf (units : Nat) (msp : Int) : Int :=
+  (units : Int) + (if msp ≥ 0 then -((msp.toNat / DDIG_PER_DIG : Nat) : Int)
+                    else (((DDIG_PER_DIG - 1 : Nat) : Int) - msp) / (DDIG_PER_DIG : Nat))
+
+/-- number of decimal digits the first limb takes -/
+def firstOf (msp : Int) : Nat :=
+  if msp ≥ 0 then msp.toNat % DDIG_PER_DIG + 1 else DDIG_PER_DIG - ((-msp - 1).toNat % DDIG_PER_DIG)
+
+/-- the work array after the digits have been read in; `none`: it does not fit -/
+def initArr (sig2 : List Nat) (units : Nat) (msp : Int) : Option Arr :=
+  if startOf units msp < 0 ∨ BIGNUM_DIGITS < (startOf units msp).toNat + (readLimbs sig2 (firstOf msp)).1.length + 1 then none
+  else
+    some { digits := List.replicate (startOf units msp).toNat 0 ++ (readLimbs sig2 (firstOf msp)).1
+              ++ List.replicate (BIGNUM_DIGITS - (startOf units msp).toNat - (readLimbs sig2 (firstOf msp)).1.length) 0
+           msd := (startOf units msp).toNat
+           lsd := (startOf units msp).toNat + (readLimbs sig2 (firstOf msp)).1.length
+                    - (if (readLimbs sig2 (firstOf msp)).2 then 0 else 1) }
+
+/-- "scale the significand to use DBL_MANT_DIG radix-FLT_RADIX integer digits" -/
+def scaleL (A0 : Arr) (units : Nat) (rsMax : Int) : Option (Arr × Int) :=
+  if 0 < rsMax then shrLoop 64 A0 0 rsMax
+  else if rsMax < 0 then shlLoopL 64 A0 units 0 rsMax
+  else some (A0, 0)
+
+/-- rounding, carry to 2⁵³, `ldexp` -/
+def finishL (A2 : Arr) (units : Nat) (e2 : Int) : Dbl :=
+  if pow2 53 - 1 < roundToIntLimbs A2.digits (mantissaOf A2 units) units A2.lsd then ldexpNat false 1 (e2 + (DBL_MANT_DIG : Nat))
+  else ldexpNat false (roundToIntLimbs A2.digits (mantissaOf A2 units) units A2.lsd) e2
+
+/-- everything after the digits have been read in -/
+def limbRun (A0 : Arr) (units : Nat) (rsMax : Int) : Option Dbl :=
+  match scaleL A0 units rsMax with
+  | none => none
+  | some s =>
+    match mantLoopL 64 s.1 units s.2 with
+    | none => none
+    | some m => some (finishL m.1 units m.2)
+
+/-- the bignum part of to_double for the significant digits `sig2` with most significant place `msp`, leading digit `d0` -/
+def limbTail (sig2 : List Nat) (msp : Int) (d0 : Nat) : Option Dbl :=
+  let ud := if msp ≥ 0 then 1 else pow10 (-msp).toNat
+  let rsMin : Int := 1 + flog2Rat (if msp ≥ 0 then d0 * pow10 msp.toNat else d0) ud - (DBL_MANT_DIG : Nat)
+  let rsMax : Int := 1 + flog2Rat (if msp ≥ 0 then (d0 + 1) * pow10 msp.toNat else d0 + 1) ud - (DBL_MANT_DIG : Nat)
+  match initArr sig2 (unitsOf msp rsMin rsMax) msp with
+  | none => none
+  | some A0 => limbRun A0 (unitsOf msp rsMin rsMax) rsMax
+
 /-- `to_double(ddigits, scale)` at the limb level; `none` = the work array would be overrun -/
 def toDoubleLimbs (ds0 : List Nat) (scale : Int) : Option Dbl :=
   let ds := ds0.dropWhile (· = 0)
@@ -177,38 +229,7 @@ def toDoubleLimbs (ds0 : List Nat) (scale : Int) : Option Dbl :=
     let sig2 := if long then sig.take CIF_LINE_LENGTH else sig
     if msp > DBL_MAX_10_EXP then some (.inf false)
     else if msp ≤ DBL_MIN_10_EXP - (DBL_DIG : Nat) then some (.fin false 0 0)
-    else
-      let d0 := ds.headD 1
-      let ud := if msp ≥ 0 then 1 else pow10 (-msp).toNat
-      let rsMin : Int := 1 + flog2Rat (if msp ≥ 0 then d0 * pow10 msp.toNat else d0) ud - (DBL_MANT_DIG : Nat)
-      let rsMax : Int := 1 + flog2Rat (if msp ≥ 0 then (d0 + 1) * pow10 msp.toNat else d0 + 1) ud - (DBL_MANT_DIG : Nat)
-      -- "Determine which decimal digit positions may be needed"
-      let mspMax : Int := if rsMax > 0 then msp else if rsMin < 0 then msp + (2 - rsMin) / 3 else msp
-      let units : Nat := mspMax.toNat / DDIG_PER_DIG
-      -- first limb and the number of decimal digits it takes
-      let start : Int := (units : Int) + (if msp ≥ 0 then -((msp.toNat / DDIG_PER_DIG : Nat) : Int)
-                                           else (((DDIG_PER_DIG - 1 : Nat) : Int) - msp) / (DDIG_PER_DIG : Nat))
-      let first : Nat := if msp ≥ 0 then msp.toNat % DDIG_PER_DIG + 1 else DDIG_PER_DIG - ((-msp - 1).toNat % DDIG_PER_DIG)
-      let rl := readLimbs sig2 first
-      if start < 0 ∨ BIGNUM_DIGITS < start.toNat + rl.1.length + 1 then none
-      else
-        let A0 : Arr := { digits := List.replicate start.toNat 0 ++ rl.1
-                            ++ List.replicate (BIGNUM_DIGITS - start.toNat - rl.1.length) 0
-                          msd := start.toNat
-                          lsd := start.toNat + rl.1.length - (if rl.2 then 0 else 1) }
-        let scaled : Option (Arr × Int) :=
-          if 0 < rsMax then shrLoop 64 A0 0 rsMax
-          else if rsMax < 0 then shlLoopL 64 A0 units 0 rsMax
-          else some (A0, 0)
-        match scaled with
-        | none => none
-        | some (A1, e1) =>
-          match mantLoopL 64 A1 units e1 with
-          | none => none
-          | some (A2, e2) =>
-            let mant := roundToIntLimbs A2.digits (mantissaOf A2 units) units A2.lsd
-            if pow2 53 - 1 < mant then some (ldexpNat false 1 (e2 + (DBL_MANT_DIG : Nat)))
-            else some (ldexpNat false mant e2)
+    else limbTail sig2 msp (ds.headD 1)
 
 /-! ### to_digits -/
 
